@@ -16,10 +16,26 @@
      SendApp(r,q)         outgoing_message_start on r (an application message r -> q leaves)
      RecvStart(q)         incoming_message_start on q (the message arrives; idle -> busy)
      RecvEnd(q)           taskpool_addto_runtime_actions(+1) (remote_dep_inc_flying_messages) ; incoming_message_end
+                          (remote_dep_release_incoming, last piece of a PTG message, PARSEC_DIST_COLLECTIVES)
+     RecvEndTask(q)       taskpool_addto_nb_tasks(+1) ; incoming_message_end: the completion of the message releases a
+                          task and takes no flying-message action (remote_dep_release_incoming -> release_deps of the
+                          generated code counts the released tasks, then incoming_message_end)
+     Spawn(q) while a message is being received: release_deps of a piece that is not the last one of its message
+                          (remote_dep_release_incoming with incoming_mask # 0 afterwards) counts the tasks it released
      MsgUp/MsgDown(p,r)   parsec_termdet_fourcounter_msg_dispatch of the head of the FIFO control channel p -> r
      MsgDelay(p,r)        the same while r is NOT_READY: parked on the delayed-message list
    Environment contract: every process holds one pending action when taskpool_ready is called (the runtime's start-up
-   action); tasks are spawned / messages sent only by a process that has work.
+   action); tasks are spawned only by a process that has work or is receiving a message, messages are sent only by
+   a running task.
+
+   variant: "code" = the module as written.  Every other value weakens ONE clause of the module (sensitivity
+   self-tests and directed behaviours of C11: TLC hands over the shortest behaviour that ends in an unsafe or a
+   stranded state of the weakened protocol, which is then replayed on the real code, see FourCounterSim.tla).
+   Found by TLC with <= 2 messages and <= 2 spawned tasks: unsafe or stranded with 2 processes: nolast nolastR noeq su_noleft
+   wc_noBWP wc_noBWC wc_noIWC wc_noIWP wc_nosend nt_nozero nt_noret pa_nozero pa_noret up_nocheck down_nocheck; with 3:
+   mr_noleft; needs a grandchild (4): down_nofwd.  Neither unsafe nor stranded with 3 processes (redundant clauses): nolastS
+   (Mattern: received(previous wave) = sent(this wave) is already sufficient), mr_notasks mr_nopa mr_nost (implied by the
+   state), rs_noIWC rs_noIWP (the busy mark of incoming_message_start is re-established by the workload change).
 
    Safety (statement of C11): no process declares termination unless every process is idle and every application
    message sent has been received.  Liveness: once all processes are permanently idle and nothing is in transit, every
@@ -27,7 +43,7 @@
    eventually happens). *)
 EXTENDS Naturals, Integers, Sequences, FiniteSets, TLC
 CONSTANTS N, MaxMsgs, MaxSpawn,
-          Variant      \* "code" | sensitivity self-test "nolast": the root decides without the last_acc_* equality
+          Variants     \* the set of protocol variants explored ({"code"} = the module as written)
 Rank == 0..(N-1)
 NbCh(r) == IF 2*r + 2 < N THEN 2 ELSE IF 2*r + 1 < N THEN 1 ELSE 0      \* topology_nb_children
 ChildSeq(r) == [i \in 1..NbCh(r) |-> 2*r + i]                             \* topology_child(i-1)
@@ -38,8 +54,11 @@ VARIABLES st, tasks, pa, sent, recv, accS, accR, left, lastS, lastR,
           delayed,  \* delayed[r]: control messages parked while r was NOT_READY
           flight,   \* flight[q]: application messages on their way to q
           started,  \* started[q]: application messages between incoming_message_start and incoming_message_end on q
-          budgetM, budgetS, cb, assertFail
-vars == <<st, tasks, pa, sent, recv, accS, accR, left, lastS, lastR, ctl, delayed, flight, started, budgetM, budgetS, cb, assertFail>>
+          budgetM, budgetS, cb, assertFail,
+          variant   \* which clause of the module is weakened (constant along a behaviour)
+vars == <<st, tasks, pa, sent, recv, accS, accR, left, lastS, lastR, ctl, delayed, flight, started, budgetM, budgetS, cb, assertFail,
+          variant>>
+V(x) == variant = x
 
 Init == /\ st = [r \in Rank |-> "NR"] /\ tasks = [r \in Rank |-> 0] /\ pa = [r \in Rank |-> 1]
         /\ sent = [r \in Rank |-> 0] /\ recv = [r \in Rank |-> 0]
@@ -48,6 +67,7 @@ Init == /\ st = [r \in Rank |-> "NR"] /\ tasks = [r \in Rank |-> 0] /\ pa = [r \
         /\ ctl = [p \in Rank \X Rank |-> <<>>] /\ delayed = [r \in Rank |-> <<>>]
         /\ flight = [r \in Rank |-> 0] /\ started = [r \in Rank |-> 0]
         /\ budgetM = MaxMsgs /\ budgetS = MaxSpawn /\ cb = [r \in Rank |-> 0] /\ assertFail = FALSE
+        /\ variant \in Variants
 
 \* ---- the module, as functions on a record w of the protocol variables ----------------------------------------------
 World == [st |-> st, accS |-> accS, accR |-> accR, left |-> left, lastS |-> lastS, lastR |-> lastR, ctl |-> ctl,
@@ -57,14 +77,17 @@ RECURSIVE PushAll(_, _, _, _)
 PushAll(c, p, qs, m) == IF qs = <<>> THEN c ELSE PushAll(Push(c, p, Head(qs), m), p, Tail(qs), m)
 
 \* parsec_termdet_fourcounter_send_up_messages
+\*   variants: nolast / nolastS / nolastR / noeq   a conjunct of the root decision dropped (nolast: both last_acc_*)
+\*             su_noleft                          nb_child_left is not re-armed
 SendUp(w, r) ==
     LET nS == w.accS[r] + sent[r]
         nR == w.accR[r] + recv[r]
-        w1 == [w EXCEPT !.accS[r] = nS, !.accR[r] = nR, !.left[r] = NbCh(r)] IN
+        w1 == [w EXCEPT !.accS[r] = nS, !.accR[r] = nR, !.left[r] = IF V("su_noleft") THEN @ ELSE NbCh(r)] IN
     IF r = 0 THEN
         LET res == IF NbCh(0) = 0 THEN TRUE
-                   ELSE IF Variant = "nolast" THEN nS = nR
-                   ELSE (w.lastS = nS /\ w.lastR = nR /\ nS = nR)
+                   ELSE /\ (V("nolast") \/ V("nolastS") \/ w.lastS = nS)
+                        /\ (V("nolast") \/ V("nolastR") \/ w.lastR = nR)
+                        /\ (V("noeq") \/ nS = nR)
             w2 == [w1 EXCEPT !.ctl = PushAll(@, 0, ChildSeq(0), [t |-> "DOWN", res |-> res]),
                              !.lastS = nS, !.lastR = nR,
                              !.af = @ \/ (NbCh(0) = 0 /\ nS # nR)] IN
@@ -73,33 +96,49 @@ SendUp(w, r) ==
     ELSE [w1 EXCEPT !.st[r] = "IWP", !.ctl = Push(@, r, Parent(r), [t |-> "UP", s |-> nS, r |-> nR])]
 
 \* parsec_termdet_fourcounter_check_state_workload_changed, with the new values of nb_tasks / nb_pending_actions
+\*   variants: wc_noBWP / wc_noBWC / wc_noIWC / wc_noIWP   one of the four state changes dropped
+\*             wc_nosend                                  no contribution when the last child already reported
 WorkloadChanged(w, r, t, p) ==
     IF t = 0 /\ p = 0
-    THEN IF w.st[r] = "BWP" THEN [w EXCEPT !.st[r] = "IWP"]
-         ELSE IF w.st[r] = "BWC" THEN LET w1 == [w EXCEPT !.st[r] = "IWC"] IN
-                                      IF w1.left[r] = 0 THEN SendUp(w1, r) ELSE w1
+    THEN IF w.st[r] = "BWP" /\ ~V("wc_noBWP") THEN [w EXCEPT !.st[r] = "IWP"]
+         ELSE IF w.st[r] = "BWC" /\ ~V("wc_noBWC")
+              THEN LET w1 == [w EXCEPT !.st[r] = "IWC"] IN
+                   IF w1.left[r] = 0 /\ ~V("wc_nosend") THEN SendUp(w1, r) ELSE w1
          ELSE w
-    ELSE IF w.st[r] = "IWC" THEN [w EXCEPT !.st[r] = "BWC"]
-         ELSE IF w.st[r] = "IWP" THEN [w EXCEPT !.st[r] = "BWP"]
+    ELSE IF w.st[r] = "IWC" /\ ~V("wc_noIWC") THEN [w EXCEPT !.st[r] = "BWC"]
+         ELSE IF w.st[r] = "IWP" /\ ~V("wc_noIWP") THEN [w EXCEPT !.st[r] = "BWP"]
          ELSE w
+
+\* the slow-path tests of taskpool_addto_nb_tasks / taskpool_addto_runtime_actions: `if (tmp == 0 || ret == 0)`
+\*   variants: nt_nozero / nt_noret (nb_tasks), pa_nozero / pa_noret (nb_pending_actions): one disjunct dropped
+TasksChanged(w, r, old, new) ==
+    IF (old = 0 /\ ~V("nt_nozero")) \/ (new = 0 /\ ~V("nt_noret")) THEN WorkloadChanged(w, r, new, pa[r]) ELSE w
+ActionsChanged(w, r, old, new) ==
+    IF (old = 0 /\ ~V("pa_nozero")) \/ (new = 0 /\ ~V("pa_noret")) THEN WorkloadChanged(w, r, tasks[r], new) ELSE w
 
 \* parsec_termdet_fourcounter_check_state_message_received
+\*   variants: mr_notasks / mr_nopa / mr_nost / mr_noleft   one conjunct dropped
 MessageReceived(w, r) ==
-    IF tasks[r] = 0 /\ pa[r] = 0 /\ w.st[r] = "IWC" /\ w.left[r] = 0 THEN SendUp(w, r) ELSE w
+    IF /\ (V("mr_notasks") \/ tasks[r] = 0) /\ (V("mr_nopa") \/ pa[r] = 0)
+       /\ (V("mr_nost") \/ w.st[r] = "IWC") /\ (V("mr_noleft") \/ w.left[r] = 0)
+    THEN SendUp(w, r) ELSE w
 
-\* parsec_termdet_fourcounter_msg_up
+\* parsec_termdet_fourcounter_msg_up          variant up_nocheck: the state is not re-examined
 OnUp(w, r, m) ==
     LET w1 == [w EXCEPT !.accS[r] = @ + m.s, !.accR[r] = @ + m.r, !.left[r] = @ - 1,
                         !.af = @ \/ w.left[r] <= 0 \/ w.st[r] = "TERM"] IN
-    MessageReceived(w1, r)
+    IF V("up_nocheck") THEN w1 ELSE MessageReceived(w1, r)
 
 \* parsec_termdet_fourcounter_msg_down (what the code does when its asserts are compiled out)
+\*   variants: down_nocheck (no contribution of an idle process whose children already reported), down_nofwd (DOWN not
+\*             forwarded to the children)
 OnDown(w, r, m) ==
-    LET w1 == [w EXCEPT !.ctl = PushAll(@, r, ChildSeq(r), m),
+    LET w1 == [w EXCEPT !.ctl = IF V("down_nofwd") THEN @ ELSE PushAll(@, r, ChildSeq(r), m),
                         !.af = @ \/ w.st[r] \notin {"BWP", "IWP"} \/ w.left[r] # NbCh(r) \/ (m.res /\ w.st[r] # "IWP")] IN
     IF m.res THEN [w1 EXCEPT !.st[r] = "TERM", !.cb[r] = @ + 1]
     ELSE LET w2 == [w1 EXCEPT !.accS[r] = 0, !.accR[r] = 0] IN
-         IF w2.st[r] = "IWP" THEN MessageReceived([w2 EXCEPT !.st[r] = "IWC"], r)
+         IF w2.st[r] = "IWP" THEN IF V("down_nocheck") THEN [w2 EXCEPT !.st[r] = "IWC"]
+                                  ELSE MessageReceived([w2 EXCEPT !.st[r] = "IWC"], r)
          ELSE [w2 EXCEPT !.st[r] = "BWC"]
 
 RECURSIVE OnAll(_, _, _)
@@ -116,60 +155,70 @@ TaskpoolReady(r) ==
     /\ st[r] = "NR" /\ Busy(r)
     /\ Commit(OnAll([World EXCEPT !.st[r] = "BWC", !.left[r] = NbCh(r)], r, delayed[r]))
     /\ delayed' = [delayed EXCEPT ![r] = <<>>]
-    /\ UNCHANGED <<tasks, pa, sent, recv, flight, started, budgetM, budgetS>>
+    /\ UNCHANGED <<tasks, pa, sent, recv, flight, started, budgetM, budgetS, variant>>
 
+\* a running task or runtime action discovers a task, or a piece of a message that is being received releases one
 Spawn(r) ==
-    /\ st[r] \notin {"NR", "TERM"} /\ Busy(r) /\ budgetS > 0
+    /\ st[r] \notin {"NR", "TERM"} /\ (Busy(r) \/ started[r] > 0) /\ budgetS > 0
     /\ tasks' = [tasks EXCEPT ![r] = @ + 1] /\ budgetS' = budgetS - 1
-    /\ Commit(IF tasks[r] = 0 THEN WorkloadChanged(World, r, 1, pa[r]) ELSE World)
-    /\ UNCHANGED <<pa, sent, recv, delayed, flight, started, budgetM>>
+    /\ Commit(TasksChanged(World, r, tasks[r], tasks[r] + 1))
+    /\ UNCHANGED <<pa, sent, recv, delayed, flight, started, budgetM, variant>>
 
 TaskDone(r) ==
     /\ st[r] # "NR" /\ tasks[r] > 0
     /\ tasks' = [tasks EXCEPT ![r] = @ - 1]
-    /\ Commit(IF tasks[r] = 1 THEN WorkloadChanged(World, r, 0, pa[r]) ELSE World)
-    /\ UNCHANGED <<pa, sent, recv, delayed, flight, started, budgetM, budgetS>>
+    /\ Commit(TasksChanged(World, r, tasks[r], tasks[r] - 1))
+    /\ UNCHANGED <<pa, sent, recv, delayed, flight, started, budgetM, budgetS, variant>>
 
 ActionDone(r) ==
     /\ st[r] # "NR" /\ pa[r] > 0
     /\ pa' = [pa EXCEPT ![r] = @ - 1]
-    /\ Commit(IF pa[r] = 1 THEN WorkloadChanged(World, r, tasks[r], 0) ELSE World)
-    /\ UNCHANGED <<tasks, sent, recv, delayed, flight, started, budgetM, budgetS>>
+    /\ Commit(ActionsChanged(World, r, pa[r], pa[r] - 1))
+    /\ UNCHANGED <<tasks, sent, recv, delayed, flight, started, budgetM, budgetS, variant>>
 
 SendApp(r, q) ==
     /\ st[r] \notin {"NR", "TERM"} /\ tasks[r] > 0 /\ budgetM > 0 /\ r # q
     /\ sent' = [sent EXCEPT ![r] = @ + 1] /\ flight' = [flight EXCEPT ![q] = @ + 1] /\ budgetM' = budgetM - 1
-    /\ UNCHANGED <<st, tasks, pa, recv, accS, accR, left, lastS, lastR, ctl, delayed, started, budgetS, cb, assertFail>>
+    /\ UNCHANGED <<st, tasks, pa, recv, accS, accR, left, lastS, lastR, ctl, delayed, started, budgetS, cb, assertFail, variant>>
 
+\* incoming_message_start            variants rs_noIWC / rs_noIWP: one of the two idle -> busy changes dropped
 RecvStart(q) ==
     /\ flight[q] > 0 /\ st[q] # "NR"
     /\ flight' = [flight EXCEPT ![q] = @ - 1] /\ started' = [started EXCEPT ![q] = @ + 1]
-    /\ st' = [st EXCEPT ![q] = IF @ = "IWC" THEN "BWC" ELSE IF @ = "IWP" THEN "BWP" ELSE @]
+    /\ st' = [st EXCEPT ![q] = IF @ = "IWC" /\ ~V("rs_noIWC") THEN "BWC"
+                               ELSE IF @ = "IWP" /\ ~V("rs_noIWP") THEN "BWP" ELSE @]
     /\ assertFail' = (assertFail \/ st[q] = "TERM")
-    /\ UNCHANGED <<tasks, pa, sent, recv, accS, accR, left, lastS, lastR, ctl, delayed, budgetM, budgetS, cb>>
+    /\ UNCHANGED <<tasks, pa, sent, recv, accS, accR, left, lastS, lastR, ctl, delayed, budgetM, budgetS, cb, variant>>
 
 RecvEnd(q) ==
     /\ started[q] > 0
     /\ started' = [started EXCEPT ![q] = @ - 1]
     /\ pa' = [pa EXCEPT ![q] = @ + 1] /\ recv' = [recv EXCEPT ![q] = @ + 1]
-    /\ Commit(IF pa[q] = 0 THEN WorkloadChanged(World, q, tasks[q], 1) ELSE World)
-    /\ UNCHANGED <<tasks, sent, delayed, flight, budgetM, budgetS>>
+    /\ Commit(ActionsChanged(World, q, pa[q], pa[q] + 1))
+    /\ UNCHANGED <<tasks, sent, delayed, flight, budgetM, budgetS, variant>>
+
+RecvEndTask(q) ==
+    /\ started[q] > 0 /\ budgetS > 0
+    /\ started' = [started EXCEPT ![q] = @ - 1] /\ budgetS' = budgetS - 1
+    /\ tasks' = [tasks EXCEPT ![q] = @ + 1] /\ recv' = [recv EXCEPT ![q] = @ + 1]
+    /\ Commit(TasksChanged(World, q, tasks[q], tasks[q] + 1))
+    /\ UNCHANGED <<pa, sent, delayed, flight, budgetM, variant>>
 
 HeadIs(p, r, t) == ctl[<<p, r>>] # <<>> /\ Head(ctl[<<p, r>>]).t = t
 Popped(p, r) == [World EXCEPT !.ctl[<<p, r>>] = Tail(@)]
 MsgUp(p, r) ==
     /\ HeadIs(p, r, "UP") /\ st[r] # "NR"
     /\ Commit(OnUp(Popped(p, r), r, Head(ctl[<<p, r>>])))
-    /\ UNCHANGED <<tasks, pa, sent, recv, delayed, flight, started, budgetM, budgetS>>
+    /\ UNCHANGED <<tasks, pa, sent, recv, delayed, flight, started, budgetM, budgetS, variant>>
 MsgDown(p, r) ==
     /\ HeadIs(p, r, "DOWN") /\ st[r] # "NR"
     /\ Commit(OnDown(Popped(p, r), r, Head(ctl[<<p, r>>])))
-    /\ UNCHANGED <<tasks, pa, sent, recv, delayed, flight, started, budgetM, budgetS>>
+    /\ UNCHANGED <<tasks, pa, sent, recv, delayed, flight, started, budgetM, budgetS, variant>>
 MsgDelay(p, r) ==
     /\ ctl[<<p, r>>] # <<>> /\ st[r] = "NR"
     /\ delayed' = [delayed EXCEPT ![r] = Append(@, Head(ctl[<<p, r>>]))]
     /\ ctl' = [ctl EXCEPT ![<<p, r>>] = Tail(@)]
-    /\ UNCHANGED <<st, tasks, pa, sent, recv, accS, accR, left, lastS, lastR, flight, started, budgetM, budgetS, cb, assertFail>>
+    /\ UNCHANGED <<st, tasks, pa, sent, recv, accS, accR, left, lastS, lastR, flight, started, budgetM, budgetS, cb, assertFail, variant>>
 
 Next == \/ \E r \in Rank : TaskpoolReady(r)
         \/ \E r \in Rank : Spawn(r)
@@ -178,12 +227,15 @@ Next == \/ \E r \in Rank : TaskpoolReady(r)
         \/ \E r, q \in Rank : SendApp(r, q)
         \/ \E q \in Rank : RecvStart(q)
         \/ \E q \in Rank : RecvEnd(q)
+        \/ \E q \in Rank : RecvEndTask(q)
         \/ \E p, r \in Rank : MsgUp(p, r)
         \/ \E p, r \in Rank : MsgDown(p, r)
         \/ \E p, r \in Rank : MsgDelay(p, r)
-\* every enabled completion / delivery eventually happens (Spawn and SendApp are choices of the application)
+\* every enabled completion / delivery eventually happens (Spawn, SendApp and the way a reception completes are choices
+\* of the application; a reception that started eventually completes one way or the other)
+RecvCompletes(q) == RecvEnd(q) \/ RecvEndTask(q)
 Fair == \A r \in Rank : /\ WF_vars(TaskpoolReady(r)) /\ WF_vars(TaskDone(r)) /\ WF_vars(ActionDone(r))
-                         /\ WF_vars(RecvStart(r)) /\ WF_vars(RecvEnd(r))
+                         /\ WF_vars(RecvStart(r)) /\ WF_vars(RecvCompletes(r))
                          /\ \A p \in Rank : WF_vars(MsgUp(p, r)) /\ WF_vars(MsgDown(p, r)) /\ WF_vars(MsgDelay(p, r))
 Spec == Init /\ [][Next]_vars
 FairSpec == Spec /\ Fair
@@ -200,6 +252,15 @@ Safe == \A r \in Rank : st[r] = "TERM" => Quiet                       \* the sta
 Sticky == \A r \in Rank : st[r] = "TERM" => cb[r] = 1                \* declared once
 CbOnce == \A r \in Rank : cb[r] <= 1
 NoAssert == ~assertFail                                               \* none of the module's asserts would fire
+\* the monitor says busy whenever the process has work (taskpool_state is what the runtime polls)
+BusyShown == \A r \in Rank : (Busy(r) /\ st[r] # "NR") => st[r] \in {"BWC", "BWP"}
 AllTerm == <>(\A r \in Rank : st[r] = "TERM")                        \* the statement's liveness half (under Fair)
 Agreement == (\E r \in Rank : st[r] = "TERM") ~> (\A r \in Rank : st[r] = "TERM")
+\* a stranded system: quiet for good, no control message left anywhere, and somebody has not terminated.  Nothing is
+\* enabled in such a state, so AllTerm implies NoStrand; weakened variants whose liveness failure is a lost wave
+\* (not an endless one) are caught by this invariant with a finite behaviour that can be replayed on the code.
+Strand == /\ Quiet /\ \A r \in Rank : st[r] # "NR" /\ delayed[r] = <<>>
+          /\ \A c \in Rank \X Rank : ctl[c] = <<>>
+          /\ \E r \in Rank : st[r] # "TERM"
+NoStrand == ~Strand
 =============================================================================
